@@ -15,12 +15,19 @@ use serde_json::json;
 use std::sync::Mutex;
 
 fn run_cpp(dir: &std::path::Path, lib: &std::path::Path, std: &str) -> (bool, String, Vec<String>) {
+    run_cpp_opts(dir, lib, std, false)
+}
+
+fn run_cpp_opts(dir: &std::path::Path, lib: &std::path::Path, std: &str, asan: bool) -> (bool, String, Vec<String>) {
     let exe = dir.join(format!("driver_{}", std.replace('+', "p")));
-    let (ok, _o, e) = util::run(std::process::Command::new("g++").args([&format!("-std={std}"), "-w", "-I", ".", "driver.cpp"]).arg(lib).args(["-lpthread", "-ldl", "-lm", "-o"]).arg(&exe).current_dir(dir));
+    let mut cmd = std::process::Command::new("g++");
+    cmd.args([&format!("-std={std}"), "-w", "-I", ".", "driver.cpp"]).arg(lib).args(["-lpthread", "-ldl", "-lm", "-o"]).arg(&exe).current_dir(dir);
+    if asan { cmd.args(["-fsanitize=address", "-fno-omit-frame-pointer", "-g"]); }
+    let (ok, _o, e) = util::run(&mut cmd);
     if !ok {
         return (false, format!("compile ({std}): {}", e.lines().filter(|l| l.contains("error")).take(4).collect::<Vec<_>>().join(" | ")), vec![]);
     }
-    match std::process::Command::new(&exe).current_dir(dir).output() {
+    match std::process::Command::new(&exe).env("ASAN_OPTIONS", "detect_leaks=0:detect_stack_use_after_return=1").current_dir(dir).output() {
         Err(e) => (false, format!("run: {e}"), vec![]),
         Ok(o) => {
             let t: Vec<String> = String::from_utf8_lossy(&o.stdout).lines().map(|l| l.to_string()).collect();
@@ -90,6 +97,14 @@ mod ffi {
         #[diplomat::attr(auto, stringifier)]
         pub fn to_string(&self, w: &mut DiplomatWrite) { use core::fmt::Write; let _ = write!(w, "num({})", self.v); }
     }
+    #[diplomat::opaque]
+    pub struct Counter { pub step: Option<Box<dyn Fn(i32) -> i32>>, pub v: i32 }
+    impl Counter {
+        pub fn new() -> Box<Counter> { Box::new(Counter { step: None, v: 1 }) }
+        pub fn set_step(&mut self, f: impl Fn(i32) -> i32 + 'static) { self.step = Some(Box::new(f)); }
+        pub fn clear_step(&mut self) { self.step = None; }
+        pub fn advance(&mut self) -> i32 { if let Some(f) = &self.step { self.v = f(self.v); } self.v }
+    }
     pub struct Vec2 { pub x: i32, pub y: i32 }
     impl Vec2 {
         #[diplomat::attr(auto, add)]
@@ -105,9 +120,25 @@ mod ffi {
 "#;
 
 const SPECIAL_DRIVER: &str = r#"#include <cstdio>
+#include <memory>
 #include "Num.hpp"
 #include "Vec2.hpp"
+#include "Counter.hpp"
 int main() {
+  // a callback that Rust stores and calls later: it must stay alive exactly as long as Rust holds it
+  auto token = std::make_shared<int>(7);
+  {
+    auto c = Counter::new_();
+    c->set_step([token](int32_t x) { return x + *token; });
+    std::printf("token after set %ld\n", (long)token.use_count());
+    int a1 = c->advance(); int a2 = c->advance();
+    std::printf("advance %d %d\n", a1, a2);
+    c->clear_step();
+    std::printf("token after clear %ld\n", (long)token.use_count());
+    c->set_step([token](int32_t x) { return x * 2; });
+    std::printf("advance %d\n", c->advance());
+  }
+  std::printf("token after drop %ld\n", (long)token.use_count());
   int vals[3] = {1, 2, 3};
   for (int a : vals) {
     auto x = Num::new_(a); auto y = Num::new_(2);
@@ -128,11 +159,11 @@ int main() {
 }
 "#;
 
-const SPECIAL_EXPECTED: &str = "cmp 1 2: -1 == 0 != 1 < 1 <= 1 > 0 >= 0\ncmp 2 2: 0 == 1 != 0 < 0 <= 1 > 0 >= 1\ncmp 3 2: 1 == 0 != 1 < 0 <= 0 > 1 >= 1\nvalue 67305985\nvalue 168496141\nat 0 some(13)\nat 1 some(12)\nat 2 some(11)\nat 3 some(10)\nat 4 none\nstr num(168496141)\narith 9,15 5,9 14,36 3,4\n+= 9,15\n-= 5,9\n*= 10,27\n/= 5,9\n";
+const SPECIAL_EXPECTED: &str = "token after set 2\nadvance 8 15\ntoken after clear 1\nadvance 30\ntoken after drop 1\ncmp 1 2: -1 == 0 != 1 < 1 <= 1 > 0 >= 0\ncmp 2 2: 0 == 1 != 0 < 0 <= 1 > 0 >= 1\ncmp 3 2: 1 == 0 != 1 < 0 <= 0 > 1 >= 1\nvalue 67305985\nvalue 168496141\nat 0 some(13)\nat 1 some(12)\nat 2 some(11)\nat 3 some(10)\nat 4 none\nstr num(168496141)\narith 9,15 5,9 14,36 3,4\n+= 9,15\n-= 5,9\n*= 10,27\n/= 5,9\n";
 
 /// special methods of the C++ API (comparison operators, accessors, indexer, stringifier, arithmetic and compound
 /// assignment): a fixed module with real bodies, called through the generated operators
-fn special_methods_probe(rep: &mut Report) {
+pub fn special_methods_probe(rep: &mut Report) {
     let label = "(c02 probe special-methods)";
     rep.oracle_runs += 1;
     let d = e2e::crate_dir("C02s");
@@ -156,7 +187,7 @@ fn special_methods_probe(rep: &mut Report) {
     std::fs::create_dir_all(&dir).unwrap();
     util::write_files(&dir, &o.files);
     std::fs::write(dir.join("driver.cpp"), SPECIAL_DRIVER).unwrap();
-    let (ok, detail, t) = run_cpp(&dir, &d.join("target/debug/libve2e.a"), "c++17");
+    let (ok, detail, t) = run_cpp_opts(&dir, &d.join("target/debug/libve2e.a"), "c++17", true);
     let got = t.join("\n") + "\n";
     if !ok || got != SPECIAL_EXPECTED {
         let diffs: Vec<String> = SPECIAL_EXPECTED.lines().zip(got.lines()).filter(|(a, b)| a != b).map(|(a, b)| format!("expected `{a}`, got `{b}`")).take(6).collect();
@@ -180,6 +211,23 @@ pub fn main(args: &[String]) {
     while cases.len() < n && tries < n * 3 {
         tries += 1;
         let m = Gen::valid_module_avoiding(&mut rng, prof, Avoid { more_zst: true, opt_unit_write: true, owned_slices: true, strs_params: true, ..Default::default() });
+        let mut m = m;
+        // one method with several directly passed strings: each validated argument has to be checked on its own
+        if let Some(t) = m.types.iter_mut().find(|t| matches!(t.def, crate::tygen::Def::Opaque)) {
+            use crate::tygen::{Enc, Lt, Method, Sd, SelfParam, Ty};
+            let owner = t.name.clone();
+            t.methods.push(Method {
+                name: "vutf".into(),
+                self_param: Some(SelfParam { ty: owner, by_ref: true, mutable: false, lt: Lt::Anon }),
+                params: vec![
+                    ("a".into(), Ty::Str(Some(Lt::Anon), Enc::Utf8, Sd::Std)),
+                    ("b".into(), Ty::Str(Some(Lt::Anon), Enc::UUtf8, Sd::Std)),
+                    ("c".into(), Ty::Str(Some(Lt::Anon), Enc::Utf8, if cases.len() % 2 == 0 { Sd::Std } else { Sd::Dip })),
+                    ("d".into(), Ty::Prim(crate::tygen::Prim::U8)),
+                ],
+                ret: Some(Ty::Prim(crate::tygen::Prim::U16)),
+            });
+        }
         let case = e2e::make_case(m, cases.len(), &mut rng);
         let o = tool::run_backend(&case.rust(), "cpp");
         if !o.ok() {
